@@ -17,6 +17,7 @@
  *                             with that header; with it, the block is the
  *                             new tail of the in-memory list and nothing is
  *                             written
+ *  C03.meta.block.appended    the write starts exactly at the end of the file
  *  C03.meta.block.position    block_offset advances by L+2, offset returns
  *                             to 0 (what inode/dir references are made of)
  *  C03.meta.block.empty       offset == 0: nothing emitted, state unchanged
@@ -123,7 +124,7 @@ void harness(void)
 		VERIF_ASSERT(g_wr[0].n <= off0 + 2 &&
 			     g_wr[0].n <= SQFS_META_BLOCK_SIZE + 2,
 			     "C03.meta.block.not_larger");
-		VERIF_ASSERT(g_wr[0].off + g_wr[0].n == g_fsize || ret != 0,
+		VERIF_ASSERT(g_wr[0].off == g_wr[0].size_at_call,
 			     "C03.meta.block.appended");
 		hdr = (sqfs_u16)(g_wr[0].b0 | (g_wr[0].b1 << 8));
 		VERIF_ASSERT((hdr & 0x7FFF) == L &&
